@@ -148,6 +148,14 @@ pub fn directed() -> Vec<(&'static str, Scn)> {
                 "sched": {"explicit": ["c2s:HSACK#0:hold2", "c2s:DATA#1:drop", "c2s:DATA#2:drop", "c2s:DATA#3:drop",
                     "c2s:DATA#4:drop", "c2s:DATA#5:hold2", "s2c:ACK#0:hold2", "s2c:ACK#1:hold2"]}})),
         ),
+        // pure reordering, nothing lost: every round's packets are delivered in
+        // reverse emission order, so the zero-window ACK of a full 1-byte buffer
+        // arrives after the window update (same ack number) that reopened it
+        (
+            "zero-window-ack-overtaken-by-update",
+            scn(json!({"cfg": {"recv_cap": 1}, "c2s": {"total": 5, "wchunks": [5], "rbufs": [1]},
+                "s2c": {"total": 0, "rbufs": [1]}, "order": "reverse", "sched": {"explicit": []}})),
+        ),
         // data arrives at a host whose own send window is closed (its peer does
         // not read for 30 rounds) while it still has bytes queued: the ACK for
         // the arriving data must go out on its own, nothing can piggyback it
